@@ -132,6 +132,20 @@ FUNCS = [
     ("C19", "dataiter/dt.py", "quarter", [], "dt_quarter"),
     ("C19", "dataiter/dt.py", "weekday", [], "dt_weekday"),
     ("C19", "dataiter/dt.py", "replace", [], "dt_replace"),
+    ("C13", "dataiter/data_frame.py", "DataFrame.to_list_of_dicts", [], "DataFrame_to_list_of_dicts"),
+    ("C13", "dataiter/data_frame.py", "DataFrame.to_json", [], "DataFrame_to_json"),
+    ("C13", "dataiter/data_frame.py", "DataFrame.to_pandas", [], "DataFrame_to_pandas"),
+    ("C13", "dataiter/data_frame.py", "DataFrame.from_pandas", [], "DataFrame_from_pandas"),
+    ("C13", "dataiter/data_frame.py", "DataFrame.to_arrow", [], "DataFrame_to_arrow"),
+    ("C13", "dataiter/data_frame.py", "DataFrame.from_arrow", [], "DataFrame_from_arrow"),
+    ("C13", "dataiter/list_of_dicts.py", "ListOfDicts.to_data_frame", [], "ListOfDicts_to_data_frame"),
+    ("C13", "dataiter/list_of_dicts.py", "ListOfDicts._to_columns", [], "ListOfDicts_to_columns"),
+    ("C13", "dataiter/list_of_dicts.py", "ListOfDicts.to_json", [], "ListOfDicts_to_json"),
+    ("C13", "dataiter/vector.py", "Vector.tolist", [], "Vector_tolist13"),
+    ("C18", "dataiter/geojson.py", "GeoJSON.read", [], "GeoJSON_read"),
+    ("C18", "dataiter/geojson.py", "GeoJSON.write", [], "GeoJSON_write"),
+    ("C18", "dataiter/geojson.py", "GeoJSON._check_raw_data", [], "GeoJSON_check_raw_data"),
+    ("C18", "dataiter/geojson.py", "GeoJSON._check_raw_feature", [], "GeoJSON_check_raw_feature"),
     ("C11", "dataiter/vector.py", "Vector.sort", [], "Vector_sort"),
     ("C11", "dataiter/vector.py", "Vector.rank", [], "Vector_rank"),
     ("C11", "dataiter/vector.py", "Vector.unique", [], "Vector_unique"),
